@@ -16,7 +16,8 @@ from . import ssa as S
 CT_LIB = {
     "math/bits.Mul64", "math/bits.Add64", "math/bits.Sub64",
     "(encoding/binary.littleEndian).Uint64", "(encoding/binary.littleEndian).PutUint64",
-    "crypto/subtle.ConstantTimeByteEq", "crypto/subtle.ConstantTimeCompare", "errors.New",
+    "crypto/subtle.ConstantTimeByteEq", "crypto/subtle.ConstantTimeCompare", "crypto/subtle.ConstantTimeEq",
+    "crypto/subtle.ConstantTimeSelect", "errors.New",
     "(*sync.Once).Do",
 }
 PUBLIC_BUILTINS = {"len", "cap", "ssa:deferstack"}
